@@ -7,7 +7,7 @@ fn main() -> Result<(), Box<dyn std::error::Error>> {
     tonic_prost_build::configure()
         .protoc_arg("--experimental_allow_proto3_optional")
         .build_server(true)
-        .build_client(false)
+        .build_client(true)
         .compile_protos(
             &[
                 format!("{proto}/adapter/adapter.proto"),
